@@ -9,6 +9,18 @@ CLAIMED = {
  "C01": ("other", "reader/writer wire-program duality over type-checked AST of regenerated code",
          "Decides, for every generated type of every corpus regenerated from the working tree (and the checked-in generated packages), that the TL1 reader's wire program is the dual of the writer's (same primitives, operands, mask-bit guards, nat arguments, counted loops, union tag tables), that nat-sized arrays have a failing length guard in the writer and that no nested writer error is dropped. All values/paths are covered; schemas only for the corpora.",
          "trusts go/types, the basictl primitive duality table (C33) and that tl2gen run as a compiler reflects the generator; corpus-bounded for the schema quantifier", "DESIGN.md §3 C01"),
+ "C02": ("other", "tag-switch totality, exact-tag and buffer-discipline rules over regenerated code; sorted-key emission rule",
+         "Decides the structural necessary conditions of canonical acceptance: every union/enum boxed reader rejects unknown tags in its default arm and has pairwise distinct tags; every boxed struct reader demands exactly its own TLTag; Bool readers use two distinct tags; readers consume input only through basictl primitives/sibling readers; map-backed dictionary writers emit from sorted keys. Does not decide the behaviour 'accepted prefix is re-written identically' as a whole (that is these clauses + C01 duality + C33 tables).",
+         "trusts go/types, C01 and C33; corpus-bounded for schemas", "DESIGN.md §3 C02"),
+ "C04": ("other", "sibling agreement of the presence table (TL1 mask bit, TL2 presence bit, field) across all generated sites",
+         "Decides that for every generated struct the ties field↔TL1 mask bit↔hidden TL2 presence bit extracted from ReadTL1, WriteTL1, RepairMasks, FillRandom, ReadJSONGeneral, CalculateLayout, InternalWriteTL2, InternalReadTL2, WriteJSONOpt are single-valued and compose: a necessary condition for TL1→TL2→TL1 to preserve values. Value equality of JSON is not decided.",
+         "trusts go/types and the shape extractor's idiom table; corpus-bounded", "DESIGN.md §3 C04"),
+ "C17": ("translation_validation", "constant evaluation and cross-check of registry tables against type constants and boxed writers",
+         "Cross-checks by constant evaluation, per corpus: meta registration literals ↔ factory registrations ↔ TLName()/TLTag() constants of the constructed Go type ↔ first word written by WriteTL1Boxed; function-ness ⇔ result transcoders exist; HaTL1/HaTL2 ⇔ readers are real, not stubs; names and non-zero tags pairwise distinct; every item has a factory and vice versa.",
+         "programs = corpora; agreement with the schema text is not decided (schema seen only through the generator)", "DESIGN.md §3 C17"),
+ "C43": ("other", "who-may-write rule inside each accessor + agreement with the presence table of readers/writers",
+         "Decides for every generated SetF/ClearF/IsSetF that it assigns/resets exactly F, sets/clears/tests exactly the presence bits that readers and writers use for F (TL1 mask bit incl. external mask pointer, TL2 presence bit), touches no other field or bit, and that no TL2 presence bit is owned by two fields; union variant accessors agree on the variant index and value field with the TL1 reader.",
+         "for true-type bit fields (no struct field) the tie name↔bit is checked only as a mirror pair known to the readers plus uniqueness; corpus-bounded", "DESIGN.md §3 C43"),
 }
 
 NOT_APPLICABLE = {
